@@ -445,6 +445,56 @@ fn check_nested(ctx: &Ctx, src: &str, max_width: usize, class: &'static str) {
     }
 }
 
+/// Depth family: a commented list / record under d levels of every wrapper (operators on either side,
+/// postfix chains, conditionals, calls, containers, spreads, lambdas, a rotation of all of them), for
+/// every d up to 12 and selected larger depths - comments must survive however far below the
+/// statement root they sit and however far to the right the layout has moved.
+pub fn deep_commented_programs(thorough: bool) -> Vec<String> {
+    let containers = ["[\n  1, // first\n  2 // second\n]", "{\n  p: 1, // first\n  // own line\n  q: 2\n}", "[\n  // lead\n  1\n]"];
+    let mut depths: Vec<usize> = (1..=12).collect();
+    depths.extend(if thorough { vec![13, 16, 20, 24, 31, 32, 33, 34, 40, 48] } else { vec![16, 33, 40] });
+    type W = (&'static str, fn(&str) -> String);
+    let wrappers: Vec<W> = vec![
+        ("left-chain", |s| format!("{} + a", s)),
+        ("right-chain", |s| format!("a + ({})", s)),
+        ("index", |s| format!("({})[0]", s)),
+        ("field", |s| format!("{{k: {}}}.k", s)),
+        ("neg", |s| format!("-({})", s)),
+        ("cond", |s| format!("if c then {} else 0", s)),
+        ("cond-test", |s| format!("if {} then 1 else 0", s)),
+        ("call", |s| format!("f({})", s)),
+        ("list", |s| format!("[{}]", s)),
+        ("record", |s| format!("{{k: {}}}", s)),
+        ("spread", |s| format!("[...{}]", s)),
+        ("lambda", |s| format!("x => {}", s)),
+        ("via", |s| format!("({}) via g", s)),
+        ("coalesce", |s| format!("{} ?? a", s)),
+    ];
+    let mut out = vec![];
+    for (ci, c) in containers.iter().enumerate() {
+        for &d in &depths {
+            for (wi, (_, w)) in wrappers.iter().enumerate() {
+                // quick: the first container under every wrapper, the others under a rotating third
+                if !thorough && ci > 0 && (wi + d + ci) % 3 != 0 {
+                    continue;
+                }
+                let mut t = c.to_string();
+                for _ in 0..d {
+                    t = w(&t);
+                }
+                out.push(format!("x = {}", t));
+            }
+            // rotation of all wrappers
+            let mut t = c.to_string();
+            for i in 0..d {
+                t = (wrappers[(i + ci) % wrappers.len()].1)(&t);
+            }
+            out.push(format!("y = {}", t));
+        }
+    }
+    out
+}
+
 /// Size family: wide and long constructs (items, entries, arguments, parameters, statements, terms,
 /// nesting levels, characters) at sizes small alphabets never reach; each once plain and once with an
 /// end-of-line comment on every 7th element and an own-line comment before every 11th.
@@ -516,6 +566,7 @@ pub fn size_family(thorough: bool) -> (Vec<String>, Vec<String>) {
 /// Every commented program of the single-slot, pair and all-slots families (used by C07/C08).
 pub fn commented_programs(thorough: bool) -> Vec<String> {
     let mut out = vec![];
+    out.extend(deep_commented_programs(thorough));
     out.extend(nested_container_programs());
     for t in templates() {
         let ss = slots(&t);
@@ -597,6 +648,9 @@ pub fn run(ctx: &Ctx, replay: Option<&J>) -> i32 {
     });
     let nested = nested_container_programs();
     par_for(nested.len(), |i| check_nested(ctx, &nested[i], max_width, "nested-container"));
+    let deep = deep_commented_programs(thorough);
+    par_for(deep.len(), |i| check_nested(ctx, &deep[i], 120, "depth-family"));
+    ctx.set("depth_family_programs", json!(deep.len()));
     let sized: Vec<String> = size_family(thorough).1;
     par_for(sized.len(), |i| check_nested(ctx, &sized[i], 120, "size-family"));
     ctx.set("size_family_programs", json!(sized.len()));
@@ -616,7 +670,7 @@ pub fn run(ctx: &Ctx, replay: Option<&J>) -> i32 {
     finish(
         ctx,
         "exploration",
-        "20 line templates (statements, lists with/without trailing comma, records, do-blocks, nested containers, silent-NEWLINE positions, empty containers) x comment slots (end of line / own line, annotated with the placement kind): the empty set, every single slot (also doubled), every pair, thorough: every triple, all slots, all slots doubled x every width 1..45/70 + default through format_blots (native shim) and once through blots --format; comment sequences extracted by an independent quote-aware scan; plus a size family (lists, records, do-blocks and statement sequences of 10 / 38 / 100 (thorough 9..257) elements with an end-of-line comment on every 7th and an own-line comment before every 11th); distinct = distinct commented sources",
+        "20 line templates (statements, lists with/without trailing comma, records, do-blocks, nested containers, silent-NEWLINE positions, empty containers) x comment slots (end of line / own line, annotated with the placement kind): the empty set, every single slot (also doubled), every pair, thorough: every triple, all slots, all slots doubled x every width 1..45/70 + default through format_blots (native shim) and once through blots --format; comment sequences extracted by an independent quote-aware scan; plus a depth family (a commented list / record under 1..12, 16, 33, 40 (thorough ..48) levels of 14 wrappers and their rotation) and a size family (lists, records, do-blocks and statement sequences of 10 / 38 / 100 (thorough 9..257) elements with an end-of-line comment on every 7th and an own-line comment before every 11th); distinct = distinct commented sources",
         true,
         None,
     )
